@@ -312,6 +312,30 @@ def run(p, report, tier):
                            detail="sentinel passed" if ok else
                            "the mask is computed with the NaN default: with another missing_label every sample counts "
                            "as labeled and unlabeled samples are fitted")
+    # per-annotator column reads of the multi-annotator model are masked by that annotator's labeled mask
+    alr = p.get_class("AnnotatorLogisticRegression").methods.get("fit")
+    n_col = 0
+    if alr is not None:
+        masks2 = {t.id for n in ast.walk(alr.node) if isinstance(n, ast.Assign) and isinstance(n.value, ast.Call)
+                  and c01.callname(n.value) == "is_labeled" for t in n.targets if isinstance(t, ast.Name)}
+        data2 = {"y", "sample_weight"}
+        for L in ast.walk(alr.node):
+            if not (isinstance(L, ast.For) and isinstance(L.target, ast.Name) and "n_annotators" in ast.unparse(L.iter)):
+                continue
+            jv = L.target.id
+            for x in ast.walk(L):
+                if isinstance(x, ast.Subscript) and isinstance(x.ctx, ast.Load) and isinstance(x.value, ast.Name) \
+                        and x.value.id in data2 and isinstance(x.slice, ast.Tuple) and len(x.slice.elts) == 2 \
+                        and isinstance(x.slice.elts[1], ast.Name) and x.slice.elts[1].id == jv:
+                    rows = x.slice.elts[0]
+                    ok = bool(names_in(rows) & masks2)
+                    n_col += 1
+                    report.add("R12.1", "AnnotatorLogisticRegression.fit", f"column read `{norm_stmt(x, 50)}` of the loop annotator",
+                               f"{alr.file}:{x.lineno}", ok, detail="rows restricted by the annotator's labeled mask" if ok else
+                               "all rows of the annotator's column are read: a missing label (code -1) enters the "
+                               "statistics (as a vote for the last class) unless its weight happens to be zero")
+    if n_col < 2:
+        raise AnalysisError("AnnotatorLogisticRegression.fit: per-annotator column reads vanished")
     report.rule("R12.3", "compute_vote_vectors gives zero weight to missing labels by an assignment (not by arithmetic "
                 "that can turn inf into NaN) that dominates the count (shared with C17 R17.2)", floor=3)
     from . import c17
